@@ -135,6 +135,73 @@ func c21RefHeader(d []byte) (code, sub uint8, either bool) {
 	return 0, 0, false
 }
 
+func c21Sym(i uint, valid uint8) uint8 {
+	if vParam("sym")&(1<<i) != 0 {
+		return ndU8()
+	}
+	return valid
+}
+
+// c21UpdateMP: a valid multiprotocol UPDATE (MP_REACH_NLRI IPv6 with a 16- or 32-byte next hop, ORIGIN, AS_PATH) in
+// which the fields selected by "sym" are symbolic: 0 total attribute length, 1 MP_REACH length, 2 AFI, 3 SAFI,
+// 4 next-hop length, 5 NLRI prefix length, 6 ORIGIN length, 7 AS_PATH length, 8 segment count, 9 attribute flags
+func c21UpdateMP() []byte {
+	nh := []byte{0x20, 0x01, 0x0d, 0xb8, 0, 0, 0, 0, 0, 0, 0, 0, 0, 0, 0, 1}
+	nhl := uint8(16)
+	if vParam("nh32") == 1 {
+		nh = append(nh, 0xfe, 0x80, 0, 0, 0, 0, 0, 0, 0, 0, 0, 0, 0, 0, 0, 1)
+		nhl = 32
+	}
+	mp := []byte{0, c21Sym(2, 2), c21Sym(3, 1), c21Sym(4, nhl)}
+	mp = append(mp, nh...)
+	mp = append(mp, 0, c21Sym(5, 32), 0x20, 0x01, 0x0d, 0xb8)
+	if cut := vParam("cut"); cut > 0 {
+		mp = mp[:len(mp)-cut] // the attribute ends early
+	}
+	attrs := []byte{c21Sym(9, 0x80), packet.MultiProtocolReachNLRIAttr, c21Sym(1, uint8(len(mp)))}
+	attrs = append(attrs, mp...)
+	attrs = append(attrs, 0x40, packet.OriginAttr, c21Sym(6, 1), 0)
+	attrs = append(attrs, 0x40, packet.ASPathAttr, c21Sym(7, 4), 2, c21Sym(8, 1), 0xfd, 0xe9)
+	body := []byte{0, 0, 0, c21Sym(0, uint8(len(attrs)))}
+	body = append(body, attrs...)
+	l := 19 + len(body)
+	data := make([]byte, 0, l+24)
+	for i := 0; i < 16; i++ {
+		data = append(data, 0xff)
+	}
+	data = append(data, uint8(l>>8), uint8(l), packet.UpdateMsg)
+	data = append(data, body...)
+	return data[:l+24]
+}
+
+// (B2) a multiprotocol UPDATE with mutated length fields delivered to an Established session
+func VC21_UpdateMP() {
+	fsm, cc := c21FSM()
+	fsm.ipv4Unicast.init()
+	fsm.ipv6Unicast.init()
+	s := newEstablishedState(fsm)
+	fsm.state = s
+	data := c21UpdateMP()
+	next, _ := s.msgReceived(data, fsm.decodeOptions(), false, 0)
+	vReach("handled")
+	vAssert(next != nil, "C21.next.state")
+	vAssert(!cc.closedBeforeNotif, "C21.notification.before.close")
+	_, derr := packet.Decode(bytes.NewBuffer(data), fsm.decodeOptions())
+	if derr == nil {
+		_, est := next.(*establishedState)
+		vAssert(est, "C21.wellformed.stays.established")
+		vAssert(cc.notifs == 0 && !cc.closed, "C21.wellformed.no.notification")
+		return
+	}
+	vReach("malformed")
+	_, idle := next.(*idleState)
+	vAssert(idle, "C21.malformed.idle")
+	vAssert(cc.closed, "C21.malformed.closed")
+	vAssert(cc.notifs == 1 && cc.notifLen == 21, "C21.malformed.notification")
+	vAssert(cc.notifCode == packet.UpdateMessageError, "C21.update.code")
+	vAssert(cc.notifSub >= 1 && cc.notifSub <= 11 && cc.notifSub != 7, "C21.update.subcode")
+}
+
 // (B) one message of any content delivered to a session in OpenSent (1), OpenConfirm (2) or Established (3)
 func VC21_Message() {
 	fsm, cc := c21FSM()
